@@ -129,8 +129,10 @@ CheckMemoryCode(mem, rsvp, limit, prio, MaxI) ==
            thr == IF ~mul.ok THEN (limit * (1 + prio)) \div 256      \* the big.Int path: exact
                   ELSE TDiv(mul.c, 256)
        IN ~(~add.ok \/ add.c > thr)
-\* the statement: granted iff the new total stays within limit*(1+prio)/256, MaxI meaning "unlimited"
-CheckMemoryIdeal(mem, rsvp, limit, prio, MaxI) == limit = MaxI \/ mem + rsvp <= (limit * (1 + prio)) \div 256
+\* the statement: granted iff the new total stays within limit*(1+prio)/256; MaxI means "unlimited" (no
+\* priority scaling), where the total must still be a number the scope can report
+CheckMemoryIdeal(mem, rsvp, limit, prio, MaxI) ==
+  IF limit = MaxI THEN mem + rsvp <= MaxI ELSE mem + rsvp <= (limit * (1 + prio)) \div 256
 
 (***************************************************************************)
 (* Objects                                                                 *)
